@@ -9,6 +9,10 @@ use crate::props::c05::Sim;
 
 pub struct C18;
 
+fn elements_for_fan(sim: &Sim, all: &[usize]) -> Vec<usize> {
+    all.iter().copied().filter(|n| sim.model.nodes[*n].alive && sim.model.is_element(*n)).collect()
+}
+
 fn is_xml_ws(s: &str) -> bool {
     s.chars().all(|c| c == ' ' || c == '\t' || c == '\r' || c == '\n')
 }
@@ -146,6 +150,33 @@ impl Property for C18 {
                 }
                 ctx.label("namespace_declaration_beside_xml_space");
             }
+        }
+        // (late draws) a wide fan: 65..90 empty elements appended to one element, then a text node — a
+        // whitespace-only text at the front then has its only significant sibling far away
+        if !elements_for_fan(&sim, &all).is_empty() && src.ratio(1, 25) {
+            let cands = elements_for_fan(&sim, &all);
+            let e = cands[src.choice_big(cands.len())];
+            let n = 65 + src.choice(26);
+            let mut ops: Vec<crate::hist::Op> = vec![crate::hist::Op::AppendText(e, " ".into())];
+            for _ in 0..n {
+                ops.push(crate::hist::Op::AppendElement(e, QName::new("", "f")));
+            }
+            ops.push(crate::hist::Op::AppendText(e, if src.bool() { "x" } else { " " }.into()));
+            let last = ops.len() - 1;
+            for (k, op) in ops.into_iter().enumerate() {
+                let eff = crate::props::c05::apply_model(&mut sim.model, &op);
+                sim.grow();
+                let hs = sim.h.clone();
+                let hf = move |i: usize| hs[i].expect("unbound");
+                crate::hist::exec(&mut sim.xot, &op, &hf);
+                // (the element appends in between merge nothing; comparing every sixth step keeps the bounded snapshot ahead of the growth)
+                if k == 0 || k == last || k % 6 == 0 {
+                    if let Err(er) = sim.compare(&eff) {
+                        return Verdict::Fail(format!("harness: building a wide fan: {}", er));
+                    }
+                }
+            }
+            ctx.label("wide_fan");
         }
         // (late draws) xml:space values that only LOOK like preserve / default: padded, other case
         let elements: Vec<usize> = all.iter().copied().filter(|n| sim.model.is_element(*n)).collect();
